@@ -76,6 +76,12 @@ def programs(tier: str):
             for expiration in (None, 2):
                 for falsy in (False, True):
                     yield {"variant": variant, "limit": limit, "expiration": expiration, "L": 4 if tier == "quick" else 6, "kwm": True, "falsy": falsy}
+    # the decorator's own defaults (limit 1, no expiration): bare, called without arguments,
+    # expiration given alone
+    for variant in ("sync", "async"):
+        yield {"variant": variant, "limit": 1, "expiration": None, "L": 5, "defaults": "bare"}
+        yield {"variant": variant, "limit": 1, "expiration": None, "L": 5, "defaults": "call"}
+        yield {"variant": variant, "limit": 1, "expiration": 2, "L": 5, "defaults": "expiration-only"}
     for variant in ("sync", "async"):
         yield {"variant": variant, "limit": 1, "expiration": None, "L": 4, "attrs": True}
         yield {"variant": variant, "limit": 2, "expiration": 2, "L": 4, "attrs": True}
@@ -136,6 +142,12 @@ def execute(program, ch: Chooser) -> Result:  # noqa: C901, PLR0912, PLR0915
                 f._limit = 99
                 f._cached = None
                 f._function = None
+            if program.get("defaults") == "bare":
+                return cache(f)  # the decorator's defaults: limit 1, no expiration
+            if program.get("defaults") == "call":
+                return cache()(f)
+            if program.get("defaults") == "expiration-only":
+                return cache(expiration=expiration)(f)  # limit defaults to 1
             return cache(limit=limit, expiration=expiration)(f)
 
         if variant == "sync":
